@@ -165,13 +165,13 @@ def run(ctx):
         check({"hw": False, "apps": [0, 1], "addrs": [0], "ops": [
             {"k": "init", "a": 0, "n": 2}, {"k": "init", "a": 1, "n": 2},
             {"k": "spawn", "a": 0, "p": sub_a}, {"k": "spawn", "a": 1, "p": sub_b}] + ticks}, "interleaved")
-    n_par = 8000 if ctx.thorough else 1200
+    n_par = 8000 if ctx.thorough else 900
     for k in range(n_par):
         check(H.par_scenario(rng, rng.choice([10, 20, 40])), "interleaved")
         if len(res.failures) >= 5:
             return res
 
-    n_walks = 12000 if ctx.thorough else 1500
+    n_walks = 12000 if ctx.thorough else 1000
     for k in range(n_walks):
         msg = k % 4 == 3
         g = H.Gen(rng, encodable=msg)
